@@ -148,6 +148,10 @@ pub mod execution; // Query timeout, resource limits, caching
 // Value type system (production-grade arbitrary arity tuples)
 pub mod value;
 
+/// Verification hook points (only with `--cfg inputlayer_verif`).
+#[cfg(inputlayer_verif)]
+pub mod verif_hooks;
+
 // Re-export value types for convenience
 pub use value::{DataType, SchemaValidationError, Tuple, TupleSchema, Value};
 
